@@ -4,11 +4,13 @@ from __future__ import annotations
 
 import ast
 import itertools
+import re
 from typing import Dict, List, Optional, Set, Tuple
 
 from ..astutil import arg_of, call_name, calls, enclosing_loops, guards, kwarg, last_attr, stmt_key, txt, walk_local
 from ..cfg import CFG
-from ..flow import bound_from
+from ..flow import bound_from, fact_texts, facts_nnf, inline_reaching, nnf_literals, path_facts, resolved_facts
+from ..kernel import OutsideFragment, decide, parse, rename
 from ..index import UNRESOLVED, AnalysisError
 from ..report import Ctx
 
@@ -54,11 +56,8 @@ def r14_1(ctx: Ctx) -> None:
             slot = stmt.targets[0].attr
             cfg = cfg or CFG(node)
             proofs = []
-            for test, pol in guards(stmt, stop=node):
-                parts = test.values if isinstance(test, ast.BoolOp) and isinstance(test.op, ast.And) else [test]
-                for part in parts:
-                    if pol and txt(part) == f"not self.{slot}":
-                        proofs.append(f"if {txt(part)}")
+            if f"not self.{slot}" in fact_texts(cfg, stmt):
+                proofs.append(f"on every path: not self.{slot}")
             # an assert on every path to the assignment
             asserts = [a for a in walk_local(node) if isinstance(a, ast.Assert)
                        and (txt(a.test) == f"not self.{slot}" or txt(a.test).startswith(f"not self.{slot}"))]
@@ -105,24 +104,35 @@ def r14_2(ctx: Ctx) -> None:
     ctx.ob("R14.2", MI, ensures[0], qual, "validate before mutate", ok,
            "no module state is written before the suitability check (or a counted look-ahead acceptance) has been passed",
            detail="; ".join(late), form=f"{len(writes)} state writes gated by ensure_suitable / look-ahead counter")
-    ok = all(any(pol and txt(t) == "self._unambiguous_accept > 0" for t, pol in guards(s, stop=func)) for s in skips) and len(skips) == 1
+    ok = len(skips) == 1
+    for skip in skips:
+        terms = [e if t else ast.UnaryOp(op=ast.Not(), operand=e) for e, t in path_facts(cfg, skip)
+                 if "self._unambiguous_accept" in txt(e)]
+        try:
+            cond = terms[0] if len(terms) == 1 else ast.BoolOp(op=ast.And(), values=terms)
+            holds, _, _ = decide(rename(cond, {"self._unambiguous_accept": "U"}), parse("U > 0"))
+            ok = ok and holds
+        except (OutsideFragment, IndexError):
+            ok = False
     ctx.ob("R14.2", MI, skips[0] if skips else func, qual, "look-ahead acceptance counted", ok,
            "the check is skipped only while the look-ahead counter set by a double-transporter match is positive, and counts down",
            form="; ".join(stmt_key(s) for s in skips))
     appends = [c for c in calls(func) if txt(c.func) == "self._components.append"]
-    ok = len(appends) == 1 and txt(appends[0].args[0]) == "component" and not guards(appends[0], stop=func) and \
-        cfg.postdominates(cfg.n(appends[0]), en)
+    ok = len(appends) == 1 and txt(appends[0].args[0]) == func.args.args[1].arg and \
+        cfg.postdominates(cfg.n(appends[0]), en) and all(cfg.postdominates(cfg.n(appends[0]), cfg.n(sk)) for sk in skips)
     ctx.ob("R14.2", MI, appends[0] if appends else func, qual, "appended exactly once", ok,
            "every accepted component is appended to the module's component list exactly once, unconditionally", form="")
-    ign = [n for n in walk_local(func) if isinstance(n, ast.If) and txt(n.test) == "component.is_ignored()"
-           and any(isinstance(s, ast.Return) for s in n.body)]
-    ok = bool(ign) and all(cfg.dominates(cfg.n(ign[0]), cfg.n(w)) for w in writes)
-    ctx.ob("R14.2", MI, ign[0] if ign else func, qual, "ignored domains skipped first", ok,
+    comp = func.args.args[1].arg
+    ign = [w for w in writes if f"not {comp}.is_ignored()" in fact_texts(cfg, w)]
+    ok = bool(writes) and len(ign) == len(writes)
+    ctx.ob("R14.2", MI, func, qual, "ignored domains skipped first", ok,
            "docking/COM domains are set aside before anything else", form="")
     # the validator cannot raise on a fresh module
     val = ctx.fn(MI, "Module.ensure_suitable")
+    vcfg = CFG(val)
     for index, r in enumerate(n for n in walk_local(val) if isinstance(n, ast.Raise)):
-        gs = [txt(t) for t, pol in guards(r, stop=val) if pol]
+        lits = nnf_literals(resolved_facts(vcfg, r)) | nnf_literals(facts_nnf(path_facts(vcfg, r)))
+        gs = sorted(text for text, truth in lits if truth)
         ok = any(g.startswith("self._") for g in gs)
         ctx.ob("R14.2", MI, r, "Module.ensure_suitable", f"raise#{index}", ok,
                "every refusal of the validator is conditioned on non-empty module state, so a fresh module accepts any component",
@@ -130,32 +140,49 @@ def r14_2(ctx: Ctx) -> None:
     # build_modules_for_cds
     qual = "build_modules_for_cds"
     func = ctx.fn(MI, qual)
-    loops = [n for n in walk_local(func) if isinstance(n, ast.For) and "enumerate(components)" in txt(n.iter)]
+    bcfg = CFG(func)
+    loops = [n for n in walk_local(func) if isinstance(n, ast.For) and isinstance(n.iter, ast.Call) and call_name(n.iter) == "enumerate"
+             and any(last_attr(c) == "add_component" for c in calls(n))]
     if not loops:
         raise AnalysisError("build_modules_for_cds: component loop not found")
     loop = loops[0]
+    comp_var = txt(loop.target.elts[1]) if isinstance(loop.target, ast.Tuple) and len(loop.target.elts) == 2 else ""
     adds = [c for c in calls(loop) if last_attr(c) == "add_component"]
     tries = [n for n in loop.body if isinstance(n, ast.Try)]
-    ok = len(adds) == 2 and len(tries) == 1
+    ok = len(adds) == 2 and len(tries) == 1 and bool(comp_var)
     if ok:
         t = tries[0]
-        body_adds = [c for s in t.body for c in calls(s) if last_attr(c) == "add_component"]
-        handler_adds = [c for h in t.handlers for s in h.body for c in calls(s) if last_attr(c) == "add_component"]
-        ok = len(body_adds) == 1 and len(handler_adds) == 1 and txt(body_adds[0].args[0]) == "component" \
-            and txt(handler_adds[0].args[0]) == "component" and txt(t.handlers[0].type) == "IncompatibleComponentError"
-        fresh = [s for h in t.handlers for s in h.body if isinstance(s, ast.Expr) and txt(s.value) == "modules.append(Module())"]
-        ok = ok and bool(fresh) and txt(handler_adds[0].func.value) == "modules[-1]" and txt(handler_adds[0].args[1]) == "[]"
-        # nothing between the fresh module and the add
-        h = t.handlers[0]
-        ok = ok and [txt(s) for s in h.body][:2] == ["modules.append(Module())", "modules[-1].add_component(component, [])"]
+        body_adds = [c for st in t.body for c in calls(st) if last_attr(c) == "add_component"]
+        handler_adds = [c for h in t.handlers for st in h.body for c in calls(st) if last_attr(c) == "add_component"]
+        ok = len(body_adds) == 1 and len(handler_adds) == 1 and txt(body_adds[0].args[0]) == comp_var \
+            and txt(handler_adds[0].args[0]) == comp_var and len(t.handlers) == 1 \
+            and txt(t.handlers[0].type) == "IncompatibleComponentError"
+        if ok:
+            h = t.handlers[0]
+            # the handler creates a fresh module, appends it to the result and adds the component to it - nothing else
+            receiver = txt(inline_reaching(bcfg, handler_adds[0], handler_adds[0].func.value))  # type: ignore[attr-defined]
+            fresh_appends = [c for st in h.body for c in calls(st) if last_attr(c) == "append" and c.args
+                             and txt(inline_reaching(bcfg, c, c.args[0])) == "Module()"]
+            list_name = txt(fresh_appends[0].func.value) if fresh_appends else ""  # type: ignore[attr-defined]
+            ok = len(fresh_appends) == 1 and receiver in ("Module()", f"{list_name}[-1]") and txt(handler_adds[0].args[1]) == "[]" \
+                and bcfg.dominates(bcfg.n(fresh_appends[0]), bcfg.n(handler_adds[0])) or \
+                (len(fresh_appends) == 1 and receiver == "Module()" and txt(handler_adds[0].args[1]) == "[]")
+            others = [st for st in h.body if not any(c in fresh_appends or c in handler_adds for c in calls(st))
+                      and not (isinstance(st, ast.Assign) and isinstance(st.value, ast.Call) and call_name(st.value) == "Module")]
+            ok = ok and not others
     ctx.ob("R14.2", MI, loop, qual, "each component added exactly once", ok,
            "each component is added once to the current module, or - if refused - once to a fresh module created for it",
            form="; ".join(txt(a)[:60] for a in adds))
     ok = not any(isinstance(n, (ast.Continue, ast.Break)) for n in walk_local(loop))
     ctx.ob("R14.2", MI, loop, qual, "no component skipped", ok, "the loop has no early continue/break: no domain is lost", form="")
-    srt = [txt(v) for v in bound_from(func, "domains")]
-    ctx.ob("R14.2", MI, func, qual, "domains in order", "sorted(domains, key=lambda x: x.query_start)" in srt,
-           "domains are processed in order of their position in the protein", form=str(srt))
+    dom_param = func.args.args[0].arg
+    srt = [v for v in bound_from(func, dom_param)]
+    ok = any(isinstance(v, ast.Call) and call_name(v) == "sorted" and v.args and txt(v.args[0]) == dom_param
+             and isinstance(kwarg(v, "key"), ast.Lambda) and len(kwarg(v, "key").args.args) == 1
+             and txt(kwarg(v, "key").body) == f"{kwarg(v, 'key').args.args[0].arg}.query_start" and kwarg(v, "reverse") is None
+             for v in srt)
+    ctx.ob("R14.2", MI, func, qual, "domains in order", ok,
+           "domains are processed in order of their position in the protein", form=str([txt(v) for v in srt]))
     # other add_component call sites outside a handler for the incompatibility error
     tabled = {
         ("combine_modules", "module.add_component(component, head.components[i + 1:])"):
@@ -164,6 +191,7 @@ def r14_2(ctx: Ctx) -> None:
         ("Module.from_json", "module.add_component(component, components[i + 1:])"):
             "reload of a saved module: a refusal here is an error of the saved data and is reported as such",
     }
+    cfgs: Dict[str, CFG] = {}
     for q in ("combine_modules", "Module.from_json"):
         f = ctx.fn(MI, q)
         for call in calls(f):
@@ -176,15 +204,37 @@ def r14_2(ctx: Ctx) -> None:
                 if isinstance(node, ast.Try) and any("IncompatibleComponentError" in txt(h.type) for h in node.handlers if h.type is not None) \
                         and any(call is x for s in node.body for x in ast.walk(s)):
                     in_try = True
-            key = (q, txt(call))
+            fcfg = cfgs.setdefault(q, CFG(f))
+            key = (q, txt(inline_reaching(fcfg, call, call)))
             if in_try:
                 ctx.ob("R14.2", MI, call, q, txt(call), True, "a refused component is handled where it is added", form="inside try/except IncompatibleComponentError")
-            elif key in tabled:
-                ctx.ob("R14.2", MI, call, q, txt(call), True, "reviewed: " + tabled[key], form="")
+            elif _ordered_replay(fcfg, f, call):
+                ctx.ob("R14.2", MI, call, q, txt(call), True,
+                       "reviewed shape: replays, in order and with the remaining components as look-ahead, the components of a "
+                       "module that was built (or saved) through the same validator into a fresh module - a refusal here is an "
+                       "error of the stored data, not of module construction", form=key[1][:140])
             else:
                 ctx.ob("R14.2", MI, call, q, txt(call), False,
                        "a component is added to a non-fresh module outside any handling of IncompatibleComponentError: a refusal "
                        "escapes module construction as an exception", form=txt(call))
+
+
+def _ordered_replay(cfg: CFG, func: ast.AST, call: ast.Call) -> bool:
+    """ `fresh.add_component(x, xs[i + 1:])` inside `for i, x in enumerate(xs)` with fresh = Module() / cls(...) """
+    loops = [lp for lp in enclosing_loops(call, stop=func) if isinstance(lp, ast.For)]
+    if not loops or len(call.args) != 2:
+        return False
+    loop = loops[0]
+    if not (isinstance(loop.iter, ast.Call) and call_name(loop.iter) == "enumerate" and len(loop.iter.args) == 1
+            and isinstance(loop.target, ast.Tuple) and len(loop.target.elts) == 2):
+        return False
+    index, elem = (txt(e) for e in loop.target.elts)
+    source = txt(loop.iter.args[0])
+    receiver = inline_reaching(cfg, call, call.func.value)  # type: ignore[attr-defined]
+    fresh = isinstance(receiver, ast.Call) and call_name(receiver) in ("Module", "cls")
+    base = source[:-len(".components")] if source.endswith(".components") else source
+    sliced = [f"{src}[{index} + 1:]" for src in (base, f"{base}.components")] + [f"{src}[1 + {index}:]" for src in (base, f"{base}.components")]
+    return fresh and txt(call.args[0]) == elem and txt(call.args[1]) in sliced
 
 
 def _carrier_branch(func: ast.AST) -> Optional[ast.If]:
@@ -194,16 +244,55 @@ def _carrier_branch(func: ast.AST) -> Optional[ast.If]:
     return None
 
 
+def _lookahead_predicate(func: ast.AST, branch: ast.AST):
+    """ canonical form of 'the upcoming hit ids start with one of the double-transporter cases':
+        (normalised comparisons, what the look-ahead list is built from, what is iterated) - locals alpha-renamed,
+        `a == b` ordered, loop vs any() both reduced to the per-case comparison """
+    cfg = CFG(func)
+    lookahead = func.args.args[2].arg if len(func.args.args) > 2 else "lookahead"  # type: ignore[attr-defined]
+    comps = set()
+    sources = set()
+    iterated = set()
+    for node in ast.walk(branch):
+        if isinstance(node, ast.Compare) and len(node.ops) == 1 and isinstance(node.ops[0], ast.Eq) and "case" in txt(node):
+            case_vars = set()
+            for anc in list(ast.walk(branch)):
+                if isinstance(anc, ast.For) and any(n is node for n in ast.walk(anc)):
+                    case_vars.add(txt(anc.target))
+                    iterated.add(txt(anc.iter))
+                if isinstance(anc, (ast.GeneratorExp, ast.ListComp)) and any(n is node for n in ast.walk(anc)):
+                    case_vars.add(txt(anc.generators[0].target))
+                    iterated.add(txt(anc.generators[0].iter))
+            sides = []
+            for side in (node.left, node.comparators[0]):
+                text = txt(side)
+                for name in {n.id for n in ast.walk(side) if isinstance(n, ast.Name)}:
+                    if name in case_vars:
+                        text = re.sub(rf"\b{name}\b", "CASE", text)
+                    else:
+                        vals = [txt(v) for v in bound_from(func, name)]
+                        if len(vals) == 1 and lookahead in vals[0]:
+                            sources.add(re.sub(r"\bfor (\w+) in\b", "for X in", vals[0]).replace(
+                                re.findall(r"for (\w+) in", vals[0])[0] + ".", "X.") if re.findall(r"for (\w+) in", vals[0]) else vals[0])
+                            text = re.sub(rf"\b{name}\b", "UPCOMING", text)
+                sides.append(text)
+            comps.add(" == ".join(sorted(sides)))
+    _ = cfg
+    return (tuple(sorted(comps)), tuple(sorted(sources)), tuple(sorted(iterated)))
+
+
 def r14_3(ctx: Ctx) -> None:
     val = ctx.fn(MI, "Module.ensure_suitable")
     upd = ctx.fn(MI, "Module.add_component")
     # asserts in the updater mirror raises in the validator
     raises_on = set()
+    vcfg = CFG(val)
     for r in (n for n in walk_local(val) if isinstance(n, ast.Raise)):
-        for t, pol in guards(r, stop=val):
-            if pol:
+        lits = nnf_literals(resolved_facts(vcfg, r)) | nnf_literals(facts_nnf(path_facts(vcfg, r)))
+        for text, truth in lits:
+            if truth:
                 for slot in SLOTS:
-                    if f"self.{slot}" in txt(t):
+                    if f"self.{slot}" in text:
                         raises_on.add(slot)
     for a in (n for n in walk_local(upd) if isinstance(n, ast.Assert) and txt(n.test).startswith("not self._")):
         slot = txt(a.test)[len("not self."):].split(",")[0].strip()
@@ -217,17 +306,13 @@ def r14_3(ctx: Ctx) -> None:
         branch = _carrier_branch(func)
         if branch is None:
             raise AnalysisError(f"{name}: carrier protein branch not found")
-        tests = [txt(n.test) for n in walk_local(branch) if isinstance(n, ast.If) and "case" in txt(n.test)]
-        tests += [txt(n.test) for n in walk_local(branch) if isinstance(n, ast.If) and "DOUBLE_TRANSPORTER_CASES" in txt(n.test)]
-        upcoming = [txt(v) for v in bound_from(func, "upcoming")]
-        loops = [txt(n.iter) for n in walk_local(branch) if isinstance(n, ast.For)]
-        preds[name] = (tuple(sorted(set(tests))), tuple(upcoming), tuple(loops))
+        preds[name] = _lookahead_predicate(func, branch)
     same = preds["ensure_suitable"] == preds["add_component"] and bool(preds["ensure_suitable"][0])
     ctx.ob("R14.3", MI, val, "Module", "double-transporter predicate", same,
            "the validator and the updater decide 'second carrier protein allowed' with the same look-ahead predicate "
            "(a module accepted while building must be accepted when replayed with a longer look-ahead)",
            form=f"validator={preds['ensure_suitable']} updater={preds['add_component']}")
-    ok = all("[:len(case)]" in t for t in preds["ensure_suitable"][0])
+    ok = all("[:len(CASE)]" in t for t in preds["ensure_suitable"][0])
     ctx.ob("R14.3", MI, val, "Module.ensure_suitable", "prefix match", ok,
            "the look-ahead is matched as a prefix (callers pass windows of different length)", form=str(preds["ensure_suitable"][0]))
 
@@ -305,9 +390,9 @@ def r14_5(ctx: Ctx) -> None:
              and any(isinstance(s, ast.Return) and txt(s.value) == "None" for s in n.body) for n in walk_local(func))
     ctx.ob("R14.5", MI, func, qual, "same strand only", ok, "genes on different strands are never merged", form="")
     # order: head components first, then tail components
-    loops = [txt(n.iter) for n in walk_local(func) if isinstance(n, ast.For)]
-    ok = loops[:2] == ["enumerate(head)", "enumerate(tail)"] and \
-        [txt(v) for v in bound_from(func, "head")] == ["previous.modules[-1]"] and [txt(v) for v in bound_from(func, "tail")] == ["current.modules[0]"]
+    cur, prev = func.args.args[0].arg, func.args.args[1].arg
+    loops = [txt(inline_reaching(cfg, n, n.iter)) for n in walk_local(func) if isinstance(n, ast.For)]
+    ok = [x.replace(".components", "") for x in loops[:2]] == [f"enumerate({prev}.modules[-1])", f"enumerate({cur}.modules[0])"]
     ctx.ob("R14.5", MI, func, qual, "order kept", ok,
            "the merged module takes the trailing module's components first, then the leading module's, each in order", form=str(loops))
     handler_returns = [h for n in walk_local(func) if isinstance(n, ast.Try) for h in n.handlers
